@@ -65,10 +65,12 @@ type gen struct {
 	fields  []variable
 	arrays  []array
 	tables  []array
-	pures   []string // private pure helpers: p0(a: base.u32) base.u32
-	helps   []string // private impure helpers: h0!(a: base.u32)
-	coros   []string // private coroutines: c0?(src: base.io_reader)
-	coroArg []bool   // whether coroutine i takes the extra "w: base.u32" argument
+	consts  []variable // named scalar constants: pri const K0 : base.u64 = 1 (max holds the value)
+	labels  int        // loop labels handed out
+	pures   []string   // private pure helpers: p0(a: base.u32) base.u32
+	helps   []string   // private impure helpers: h0!(a: base.u32)
+	coros   []string   // private coroutines: c0?(src: base.io_reader)
+	coroArg []bool     // whether coroutine i takes the extra "w: base.u32" argument
 	// current function
 	locals   []variable
 	args     []variable
@@ -207,7 +209,61 @@ func (g *gen) expr(width int, limit *big.Int, depth int) (string, *big.Int) {
 	if leaf {
 		return g.leaf(width, limit)
 	}
-	switch g.draw(0, 15, "op") {
+	switch g.draw(0, 17, "op") {
+	case 16: // shifts by a non-constant amount
+		left, ok := g.simpleRecv(width)
+		lmax := tm
+		if n, v, okc := g.namedConst(width, tm); okc && g.chance(50, "shlconst") {
+			left, lmax, ok = n, v, true
+		}
+		if !ok {
+			break
+		}
+		if sh0, _ := g.shiftAmount(width); sh0 == "0" {
+			break
+		}
+		switch g.draw(0, 2, "vshift") {
+		case 0: // a >> s
+			sh, _ := g.shiftAmount(width)
+			if lmax.Cmp(limit) <= 0 {
+				return fmt.Sprintf("(%s >> %s)", left, sh), lmax
+			}
+			return fmt.Sprintf("((%s >> %s) & %s)", left, sh, hex(maskFor(limit))), maskFor(limit)
+		case 1: // a ~mod<< s
+			if g.o.excluded("K4-modshl") {
+				break
+			}
+			sh, _ := g.shiftAmount(width)
+			if limit.Cmp(tm) == 0 {
+				return fmt.Sprintf("(%s ~mod<< %s)", left, sh), tm
+			}
+			return fmt.Sprintf("((%s ~mod<< %s) & %s)", left, sh, hex(maskFor(limit))), maskFor(limit)
+		default: // (a & small) << s with room
+			if limit.BitLen() > 4 {
+				room := limit.BitLen() - 1 // result < 2^room <= limit
+				sb := g.draw(1, min(room-1, 6), "vshlbits")
+				sh, smax := g.shiftAmount(1 << uint(sb))
+				ab := room - smax
+				if ab >= 1 {
+					m := new(big.Int).Sub(pow2(ab), big.NewInt(1))
+					r := new(big.Int).Lsh(m, uint(smax))
+					return fmt.Sprintf("((%s & %s) << %s)", left, hex(m), sh), r
+				}
+			}
+		}
+	case 17: // a named constant as an operand of a modular operator
+		if n, _, ok := g.namedConst(width, tm); ok {
+			b, okb := g.simpleRecv(width)
+			if !okb {
+				break
+			}
+			op := []string{"~mod+", "~mod-", "~mod*", "^", "|", "~sat+", "~sat-"}[g.draw(0, 6, "kmodop")]
+			m := maskFor(limit)
+			if g.chance(50, "kswap") {
+				return fmt.Sprintf("((%s %s %s) & %s)", b, op, n, hex(m)), m
+			}
+			return fmt.Sprintf("((%s %s %s) & %s)", n, op, b, hex(m)), m
+		}
 	case 0: // a + b with room
 		if limit.Sign() > 0 {
 			la := new(big.Int).Rsh(limit, 1)
@@ -332,7 +388,44 @@ func paren(e string) string {
 	return "(" + e + ")"
 }
 
+// namedConst returns a named constant of the width whose value fits the limit.
+func (g *gen) namedConst(width int, limit *big.Int) (string, *big.Int, bool) {
+	var fit []variable
+	for _, c := range g.consts {
+		if c.width == width && c.max.Cmp(limit) <= 0 {
+			fit = append(fit, c)
+		}
+	}
+	if len(fit) == 0 {
+		return "", nil, false
+	}
+	c := fit[g.draw(0, len(fit)-1, "kconst")]
+	return c.name, c.max, true
+}
+
+// shiftAmount builds a non-constant shift count provably below bound.
+func (g *gen) shiftAmount(bound int) (string, int) {
+	m := maskFor(big.NewInt(int64(bound - 1)))
+	for _, w := range [][]int{{8, 32, 64, 16}, {32, 8, 16, 64}, {64, 32, 8, 16}}[g.draw(0, 2, "shw")] {
+		if v, ok := g.simpleRecv(w); ok {
+			return fmt.Sprintf("(%s & %s)", v, hex(m)), int(m.Int64())
+		}
+	}
+	return "0", 0
+}
+
+var varRE = regexp.MustCompile(`(this\.|args\.|\b[a-z][a-z]?[0-9])`)
+
+// hasVar reports whether an expression mentions a variable (an expression of
+// constants only is an ideal number: tilde operators and conditions reject it).
+func hasVar(e string) bool { return varRE.MatchString(e) }
+
 func (g *gen) leaf(width int, limit *big.Int) (string, *big.Int) {
+	if len(g.consts) > 0 && g.chance(8, "leafconst") {
+		if n, v, ok := g.namedConst(width, limit); ok {
+			return n, v
+		}
+	}
 	vs := g.varsOfWidth(width)
 	if len(vs) > 0 && g.chance(75, "usevar") {
 		v := vs[g.draw(0, len(vs)-1, "var")]
@@ -417,11 +510,17 @@ func (g *gen) assignable() []variable {
 func (g *gen) cond() string {
 	w := []int{8, 16, 32, 64}[g.draw(0, 3, "condw")]
 	a, _ := g.expr(w, typeMax(w), 2)
+	for try := 0; try < 4 && !hasVar(a); try++ {
+		a, _ = g.expr(w, typeMax(w), 2)
+	}
 	b, _ := g.expr(w, typeMax(w), 1)
 	op := []string{"<", "<=", "==", "<>", ">=", ">"}[g.draw(0, 5, "cmp")]
 	c := fmt.Sprintf("%s %s %s", a, op, b)
 	if g.chance(15, "andor") {
 		a2, _ := g.expr(w, typeMax(w), 1)
+		for try := 0; try < 4 && !hasVar(a2); try++ {
+			a2, _ = g.expr(w, typeMax(w), 1)
+		}
 		b2, _ := g.expr(w, typeMax(w), 1)
 		c = fmt.Sprintf("(%s) %s (%s %s %s)", c, []string{"and", "or"}[g.draw(0, 1, "ao")], a2, []string{"<", "=="}[g.draw(0, 1, "cmp2")], b2)
 	}
@@ -435,7 +534,7 @@ func (g *gen) stmts(n int, budget int) {
 }
 
 func (g *gen) stmt(budget int) {
-	kind := g.draw(0, 22, "stmt")
+	kind := g.draw(0, 24, "stmt")
 	as := g.assignable()
 	switch {
 	case kind <= 5 && len(as) > 0: // plain assignment
@@ -531,6 +630,14 @@ func (g *gen) stmt(budget int) {
 		g.ioBindStmt()
 	case kind == 18 && g.impure && !g.coro && !g.inIter && len(g.byteArrays()) > 0: // iterate loop over a byte array
 		g.iterateStmt()
+	case kind == 19 && len(g.arrays) > 0:
+		g.guardedIndex()
+	case kind == 23 && budget > 0 && !g.inIter:
+		g.deepBreakLoop(budget - 1)
+	case kind == 24 && !g.impure && len(g.helps) > 0 && g.chance(30, "pureimpure"):
+		// near miss: a bare impure call inside a pure function must be rejected by the tree
+		e, _ := g.expr(32, typeMax(32), 1)
+		g.line("this.%s!(a: %s)", g.helps[g.draw(0, len(g.helps)-1, "help")], e)
 	case kind == 17 && budget > 0 && len(g.arrays) > 0: // loop whose condition indexes with a variable the body changes
 		g.indexedWhile()
 	case kind == 14 && g.impure && len(g.helps) > 0:
@@ -636,6 +743,183 @@ func (g *gen) countedLoop(budget int) {
 	g.line("%s += 1", idx.name)
 	delete(g.loopVars, idx.name)
 	g.depth--
+	g.line("}")
+}
+
+// guardedIndex emits an array access whose index is in range only because of
+// the fact an if-condition establishes, spelled in one of several equivalent
+// ways (variable-first, constant-first, negated with the access in the else
+// branch or after an early exit). With some probability the bound is off by one:
+// a shape that only an unsound checker accepts.
+func (g *gen) guardedIndex() {
+	var cand []variable
+	for _, v := range g.locals {
+		if !g.loopVars[v.name] && v.max.Cmp(typeMax(v.width)) == 0 && (strings.HasPrefix(v.name, "v") || strings.HasPrefix(v.name, "i")) {
+			cand = append(cand, v)
+		}
+	}
+	for _, v := range g.args {
+		if v.max.Cmp(typeMax(v.width)) == 0 {
+			cand = append(cand, v)
+		}
+	}
+	if len(cand) == 0 {
+		return
+	}
+	v := cand[g.draw(0, len(cand)-1, "giv")]
+	ar := g.arrays[g.draw(0, len(g.arrays)-1, "giarr")]
+	n := ar.n
+	if typeMax(v.width).Cmp(big.NewInt(int64(n))) <= 0 {
+		return
+	}
+	off := 0
+	if g.chance(20, "ginear") {
+		off = 1 // near miss: admits v == n
+	}
+	use := func() {
+		as := g.assignable()
+		if g.impure && g.chance(50, "gistore") && !g.o.excluded("K2-element-store") {
+			for try := 0; try < 4; try++ {
+				e, _ := g.expr(ar.width, ar.emax, 1)
+				if !mentions(e, v.name) {
+					g.line("%s[%s] = %s", ar.name, v.name, e)
+					return
+				}
+			}
+		}
+		for _, a := range as {
+			if a.name != v.name && a.width == ar.width && a.max.Cmp(ar.emax) >= 0 {
+				g.line("%s = %s[%s]", a.name, ar.name, v.name)
+				return
+			}
+		}
+		for _, a := range as {
+			if a.name != v.name && a.width > ar.width && a.max.Cmp(ar.emax) >= 0 {
+				g.line("%s = %s", a.name, conv(fmt.Sprintf("%s[%s]", ar.name, v.name), ar.width, a.width))
+				return
+			}
+		}
+	}
+	other := func() {
+		if as := g.assignable(); len(as) > 0 {
+			a := as[g.draw(0, len(as)-1, "gioth")]
+			if a.name != v.name {
+				g.line("%s = %s", a.name, hex(g.constant(a.max)))
+			}
+		}
+	}
+	hi, hi1 := n+off, n-1+off
+	form := g.draw(0, 7, "giform")
+	if form == 7 && (g.retZero == "" || g.depth != 1 || g.inIter) {
+		form = g.draw(0, 6, "giform2")
+	}
+	switch form {
+	case 0:
+		g.line("if %s < %d {", v.name, hi)
+	case 1:
+		g.line("if %s <= %d {", v.name, hi1)
+	case 2:
+		g.line("if %d > %s {", hi, v.name)
+	case 3:
+		g.line("if %d >= %s {", hi1, v.name)
+	case 4:
+		g.line("if %s >= %d {", v.name, hi)
+	case 5:
+		g.line("if %d <= %s {", hi, v.name)
+	case 6:
+		g.line("if %d < %s {", hi1, v.name)
+	case 7:
+		g.line("if %s {", []string{fmt.Sprintf("%d <= %s", hi, v.name), fmt.Sprintf("%s > %d", v.name, hi1), fmt.Sprintf("%d < %s", hi1, v.name)}[g.draw(0, 2, "giexit")])
+		g.line("    %s", g.retZero)
+		g.line("}")
+		use()
+		return
+	}
+	g.depth++
+	if form <= 3 {
+		use()
+		g.depth--
+	} else {
+		other()
+		g.depth--
+		g.line("} else {")
+		g.depth++
+		use()
+		g.depth--
+	}
+	g.line("}")
+}
+
+// deepBreakLoop emits a labelled "while.L true" loop that is left only through
+// "break.L" inside an inner loop (a deep break), as the last statement of an
+// if-branch: after the if, only the facts that hold on every path may survive.
+func (g *gen) deepBreakLoop(budget int) {
+	g.labels++
+	lab := fmt.Sprintf("lab%d", g.labels)
+	loop := func() {
+		if g.chance(35, "dbdouble") {
+			// "execute once" blocks: while.L true {{ ... break.L }}.L, here two of them nested (goto-like early exits)
+			g.line("while.%s true {{", lab)
+			g.depth++
+			g.line("while.%sin true {{", lab)
+			g.depth++
+			if g.chance(60, "dbbody") {
+				g.stmt(0)
+			}
+			g.line("if %s {", g.cond())
+			g.line("    break.%s", lab)
+			g.line("}")
+			if g.chance(50, "dbbody2") {
+				g.stmt(0)
+			}
+			g.line("break.%sin", lab)
+			g.depth--
+			g.line("}}.%sin", lab)
+			if g.chance(50, "dbbody3") {
+				g.stmt(0)
+			}
+			g.line("break.%s", lab)
+			g.depth--
+			g.line("}}.%s", lab)
+			return
+		}
+		g.line("while.%s true {", lab)
+		g.depth++
+		if g.chance(40, "dbpre") {
+			g.stmt(0)
+		}
+		g.line("while true {")
+		g.depth++
+		if g.chance(60, "dbbody") {
+			g.stmt(0)
+		}
+		if g.chance(30, "dbearly") {
+			g.line("if %s {", g.cond())
+			g.line("    break.%s", lab)
+			g.line("}")
+		}
+		g.line("break.%s", lab)
+		g.depth--
+		g.line("}")
+		g.depth--
+		g.line("}.%s", lab)
+	}
+	g.line("if %s {", g.cond())
+	g.depth++
+	if g.chance(50, "dbthen") {
+		if g.chance(50, "dbpre2") {
+			g.stmt(0)
+		}
+		loop()
+		g.depth--
+	} else {
+		g.stmt(budget)
+		g.depth--
+		g.line("} else {")
+		g.depth++
+		loop()
+		g.depth--
+	}
 	g.line("}")
 }
 
@@ -1129,6 +1413,18 @@ func Gen(t *rapid.T, pkg string, o *Options) Prog {
 	g := &gen{t: t, o: o}
 	w := &g.b
 	fmt.Fprintf(w, "pub status \"#bad\"\n\n")
+	// named scalar constants
+	for i, nk := 0, g.draw(0, 3, "nconsts"); i < nk; i++ {
+		width := []int{8, 16, 32, 64, 64}[g.draw(0, 4, "kw")]
+		lim := typeMax(width)
+		if g.chance(60, "ksmall") {
+			lim = minBig(lim, big.NewInt(0xFFFF))
+		}
+		v := g.constant(lim)
+		name := fmt.Sprintf("K%d", i)
+		fmt.Fprintf(w, "pri const %s : %s = %s\n\n", name, typeName(width), hex(v))
+		g.consts = append(g.consts, variable{name: name, width: width, max: v})
+	}
 	// tables
 	for i := 0; i < g.draw(0, 2, "ntables"); i++ {
 		n := []int{2, 3, 4, 8, 16}[g.draw(0, 4, "tn")]
